@@ -842,37 +842,82 @@ Lemma nm_frame_lemma (fi : finterp) (p : body) (r r' : env) (v : id) :
   nm_body fi r p = Some r' -> ~ In v (assigned_body p) -> r' v = r v.
 Proof. apply (proj1 (proj2 (nm_frame_all fi))). Qed.
 
-(* ---- the function table is the identity on function symbols (since fix 81bb571) ------------- *)
-Lemma read_expr_id :
-  (forall e, read_expr e = e) /\ (forall c, read_cond c = c).
-Proof.
-  apply expr_cond_mut; intros; cbn [read_expr read_cond]; unfold read_fn2;
-    repeat match goal with H : _ = _ |- _ => rewrite H; clear H end; reflexivity.
-Qed.
+(* ---- the function table: protected functions are expanded into their clamp rule ---------------- *)
+Lemma template_closed p y : In y (free_syms (template p)) -> y = x0.
+Proof. destruct p; cbn; intuition. Qed.
 
-Lemma read_body_id_all :
-  (forall s, read_stmt s = s) /\ (forall b, read_body b = b) /\ (forall brs, read_branches brs = brs).
+Lemma template_strict fi p r : r x0 = None -> eval r fi (template p) = None.
+Proof. intro H. destruct p; cbn [template pw2 log10_of X0 eval evalc]; rewrite ?H; reflexivity. Qed.
+
+Section ReadEval.
+  Variable fi : finterp.
+  Hypothesis Hspec : protected_spec fi.
+
+  Lemma read_eval :
+    (forall e r, eval r fi (read_expr e) = eval r fi e) /\
+    (forall c r, evalc r fi (read_cond c) = evalc r fi c).
+  Proof.
+    apply expr_cond_mut; intros; cbn [read_expr read_cond eval evalc]; unfold read_fn2;
+      repeat match goal with H : forall r, _ = _ |- _ => rewrite H; clear H end; try reflexivity.
+    (* Fn1 *)
+    destruct (prot_of_id f) as [p|] eqn:Ep.
+    - rewrite subs_eval. rewrite H.
+      destruct (eval r fi a) as [x|] eqn:Ea; cbn [obind].
+      + rewrite (Hspec f p x Ep). apply eval_coincidence. intros y Hy.
+        apply template_closed in Hy. subst y. unfold upd. rewrite Pos.eqb_refl. reflexivity.
+      + apply template_strict. unfold upd. rewrite Pos.eqb_refl. reflexivity.
+    - cbn [eval]. rewrite H. reflexivity.
+  Qed.
+
+  Lemma read_nm_all :
+    (forall s r, nm_stmt fi r (read_stmt s) = nm_stmt fi r s) /\
+    (forall b r, nm_body fi r (read_body b) = nm_body fi r b) /\
+    (forall brs r, nm_branches fi r (read_branches brs) = nm_branches fi r brs).
+  Proof.
+    pose proof (proj1 read_eval) as He. pose proof (proj2 read_eval) as Hc.
+    apply nm_mutind.
+    - intros x e r. change (read_stmt (NAssign x e)) with (NAssign x (read_expr e)).
+      rewrite !nm_stmt_assign. unfold assign. rewrite He. reflexivity.
+    - intros c x e r. change (read_stmt (NIf c x e)) with (NIf (read_cond c) x (read_expr e)).
+      rewrite !nm_stmt_if. unfold assign. rewrite Hc, He. reflexivity.
+    - intros brs IHb els IHe r. change (read_stmt (NBlock brs els)) with (NBlock (read_branches brs) (read_body els)).
+      rewrite !nm_stmt_block, IHb, IHe. reflexivity.
+    - reflexivity.
+    - intros s IHs tl IHt r. change (read_body (BCons s tl)) with (BCons (read_stmt s) (read_body tl)).
+      rewrite !nm_body_cons, IHs. destruct (nm_stmt fi r s); [apply IHt|reflexivity].
+    - reflexivity.
+    - intros c b IHb tl IHt r. change (read_branches (BrCons c b tl)) with (BrCons (read_cond c) (read_body b) (read_branches tl)).
+      rewrite !nm_branches_cons, Hc, IHb, IHt. reflexivity.
+  Qed.
+
+  Lemma read_code_sound_lemma ode p r r' :
+    guard_code (read_body p) = true -> fresh_env r (read_body p) -> nm_body fi r p = Some r' ->
+    forall v, exec fi ode r (read_code p) v = r' v.
+  Proof.
+    intros Hg Hf Hnm. unfold read_code.
+    apply (translate_sound_lemma fi ode (read_body p) r r' Hg Hf).
+    rewrite (proj1 (proj2 read_nm_all)). exact Hnm.
+  Qed.
+End ReadEval.
+
+(* reading changes neither the assigned symbols nor the shape of the program *)
+Lemma read_assigned_all :
+  (forall s, assigned_stmt (read_stmt s) = assigned_stmt s) /\
+  (forall b, assigned_body (read_body b) = assigned_body b) /\
+  (forall brs, assigned_branches (read_branches brs) = assigned_branches brs).
 Proof.
-  pose proof (proj1 read_expr_id) as He. pose proof (proj2 read_expr_id) as Hc.
   apply nm_mutind.
-  - intros x e. change (NAssign x (read_expr e) = NAssign x e). rewrite He. reflexivity.
-  - intros c x e. change (NIf (read_cond c) x (read_expr e) = NIf c x e). rewrite Hc, He. reflexivity.
-  - intros brs IHb els IHe. change (NBlock (read_branches brs) (read_body els) = NBlock brs els).
-    rewrite IHb, IHe. reflexivity.
   - reflexivity.
-  - intros s IHs tl IHt. change (BCons (read_stmt s) (read_body tl) = BCons s tl). rewrite IHs, IHt. reflexivity.
   - reflexivity.
-  - intros c b IHb tl IHt. change (BrCons (read_cond c) (read_body b) (read_branches tl) = BrCons c b tl).
-    rewrite Hc, IHb, IHt. reflexivity.
+  - intros brs IHb els IHe. change (assigned_stmt (read_stmt (NBlock brs els))) with
+      (assigned_branches (read_branches brs) ++ assigned_body (read_body els)). rewrite IHb, IHe. reflexivity.
+  - reflexivity.
+  - intros s IHs tl IHt. change (assigned_body (read_body (BCons s tl))) with
+      (assigned_stmt (read_stmt s) ++ assigned_body (read_body tl)). rewrite IHs, IHt. reflexivity.
+  - reflexivity.
+  - intros c b IHb tl IHt. change (assigned_branches (read_branches (BrCons c b tl))) with
+      (assigned_body (read_body b) ++ assigned_branches (read_branches tl)). rewrite IHb, IHt. reflexivity.
 Qed.
 
-Lemma read_body_id p : read_body p = p.
-Proof. apply (proj1 (proj2 read_body_id_all)). Qed.
-
-Lemma read_code_sound_lemma fi ode p r r' :
-  guard_code p = true -> fresh_env r p -> nm_body fi r p = Some r' ->
-  forall v, exec fi ode r (read_code p) v = r' v.
-Proof.
-  intros Hg Hf Hnm. unfold read_code. rewrite (read_body_id p).
-  apply (translate_sound_lemma fi ode p r r' Hg Hf Hnm).
-Qed.
+Lemma read_fresh_env r p : fresh_env r p -> fresh_env r (read_body p).
+Proof. unfold fresh_env. rewrite (proj1 (proj2 read_assigned_all)). tauto. Qed.
